@@ -896,6 +896,9 @@ class Wrapc(util.WrapperMixin):
         C_subprogram = ast.get_subprogram()
         result_typemap = ast.typemap
         generated_suffix = node.generated_suffix
+        result_suffix = generated_suffix
+        if node.result_suffix is not None:
+            result_suffix = node.result_suffix
 
         result_is_const = ast.const
         is_ctor = CXX_ast.is_ctor()
@@ -932,7 +935,7 @@ class Wrapc(util.WrapperMixin):
                 sintent = "ctor"
             else:
                 sintent = "result"
-            stmts = ["c", result_typemap.sgroup, spointer, sintent, generated_suffix]
+            stmts = ["c", result_typemap.sgroup, spointer, sintent, result_suffix]
             result_blk = statements.lookup_fc_stmts(stmts)
 
             fmt_result.idtor = "0"  # no destructor
@@ -1093,7 +1096,7 @@ class Wrapc(util.WrapperMixin):
                 spointer = CXX_ast.get_indirect_stmt()
                 stmts = [
                     "c", sgroup, spointer, "result",
-                    generated_suffix, return_deref_attr,
+                    result_suffix, return_deref_attr,
                 ]
                 intent_blk = statements.lookup_fc_stmts(stmts)
                 need_wrapper = True
